@@ -16,6 +16,20 @@ Proof.
     cbn [zsum length]. rewrite Nat2Z.inj_succ. lia.
 Qed.
 
+(* a_k <= b_k + X * c_k + 1 pointwise *)
+Lemma zsum_affine_bound : forall (a b c : list Z) X,
+  length b = length a -> length c = length a ->
+  (forall k, (k < length a)%nat -> nth k a 0 <= nth k b 0 + X * nth k c 0 + 1) ->
+  zsum a <= zsum b + X * zsum c + Z.of_nat (length a).
+Proof.
+  induction a as [|x r IH]; intros [|y br] [|z cr] X Hb Hc H; simpl in Hb, Hc; try discriminate.
+  - simpl. lia.
+  - pose proof (H O ltac:(simpl; lia)) as H0. simpl in H0.
+    assert (Hr : zsum r <= zsum br + X * zsum cr + Z.of_nat (length r)).
+    { apply IH; try congruence. intros k Hk. apply (H (S k)). simpl. lia. }
+    cbn [zsum length]. rewrite Nat2Z.inj_succ. lia.
+Qed.
+
 Lemma zsum_nonneg : forall l, (forall k, 0 <= nth k l 0) -> 0 <= zsum l.
 Proof.
   induction l as [|x r IH]; intro H; simpl; [lia|].
@@ -34,6 +48,24 @@ Proof.
     destruct (zsum sizes <? stop); [|assumption].
     destruct (nx g) as [[i1 g1]|]; [|discriminate].
     apply IH with (f' := f') in H; [assumption|lia].
+Qed.
+
+Lemma zsum_inc_nth_le : forall l k, zsum (inc_nth l k) <= zsum l + 1.
+Proof.
+  induction l as [|x r IH]; intro k; destruct k; simpl; try lia. specialize (IH k). lia.
+Qed.
+
+(* a lower bound for any generator: a loop that has to raise the total by d
+   cannot finish in fewer than d iterations *)
+Lemma grow_needs_fuel : forall {G} (nx : G -> option (nat * G)) fuel stop caps sizes i g r,
+  grow nx fuel stop caps sizes i g = Some r -> stop - zsum sizes <= Z.of_nat fuel.
+Proof.
+  intros G nx. induction fuel as [|f IH]; intros stop caps sizes i g r H.
+  - cbn [grow] in H. destruct (zsum sizes <? stop) eqn:E; [discriminate|]. apply Z.ltb_ge in E. simpl. lia.
+  - cbn [grow] in H. destruct (zsum sizes <? stop) eqn:E; [|apply Z.ltb_ge in E; lia].
+    destruct (nx g) as [[i1 g1]|]; [|discriminate].
+    apply IH in H. rewrite Nat2Z.inj_succ.
+    destruct (nth i sizes 0 <? nth i caps 0); [pose proof (zsum_inc_nth_le sizes i)|]; lia.
 Qed.
 
 (* ------------------------------------------------------------------ *)
@@ -55,8 +87,8 @@ Section Loop.
   Hypothesis H3 : forall c, nth c start 0 < nth c tgt 0 -> exists p, (p < m)%nat /\ nth p items O = c.
   Hypothesis H5 : forall p, (p < m)%nat -> nth (nth p items O) tgt 0 = nth (nth p items O) caps 0.
 
-  Definition Imax : Z := (D + i0) * mw + 2 + i0.
-  Definition Cmax : Z := Z.of_nat m * ((D + i0) * mw + 1).
+  (* how far the sum of already_taken can get while the loop runs *)
+  Definition Cmax : Z := zsum (g_taken gs) + (D + 1) * zsum (g_weights gs) + Z.of_nat m.
 
   (* safety part of the loop invariant: needs nothing about [stop] *)
   Record R0 (sizes : list Z) (cur : nat) (g : gen) : Prop := {
@@ -124,7 +156,7 @@ Section Loop.
           Z.min (nth (nth p items O) caps 0)
                 (nth (nth p items O) start 0 + nth p (g_taken g) 0 - ind p q - nth p (g_taken gs) 0)
           <= nth (nth p items O) sizes 0;
-    r_i : g_i g <= Imax
+    r_w : g_weights g = g_weights gs
   }.
 
   Lemma ind_bounds : forall p q, 0 <= ind p q <= 1.
@@ -136,32 +168,52 @@ Section Loop.
   Lemma i0_nonneg : 0 <= i0.
   Proof. apply (gi_i gs Hgs). Qed.
 
-  (* while the loop is running, the generator cannot be far: some child it
-     yields still has room, so that child was not yielded often *)
+  (* While the loop is running some child the generator yields still has
+     room, so it was yielded fewer than D times since the loop began; by the
+     proportionality window of the generator every other item was then
+     yielded at most (D+1) * its weight + 1 times. *)
   Lemma running_bound : forall sizes cur g,
-    R sizes cur g -> zsum sizes < stop ->
-    g_i g <= (D + i0) * mw + 1 /\ zsum (g_taken g) <= Cmax.
+    R sizes cur g -> zsum sizes < stop -> zsum (g_taken g) <= Cmax.
   Proof.
-    intros sizes cur g [[I It Mw (q & Hq & Hqm & Hc) Hl Lo Hi] HJ Hgi] Hrun.
+    intros sizes cur g [[I It Mw (q & Hq & Hqm & Hc) Hl Lo Hi] HJ Hgw] Hrun.
     destruct (le_all_sum_lt_ex _ _ Hi ltac:(lia)) as (c & Hcl & Hclt).
     pose proof (le_all_nth _ _ c Lo) as Hsc.
     destruct (H3 c ltac:(lia)) as (p & Hp & Hpc).
     specialize (HJ p q Hq Hp). rewrite <- (H5 p Hp) in HJ. rewrite Hpc in HJ.
     pose proof (ind_bounds p q) as Hind.
     pose proof (le_all_nth_diff _ _ c Lo) as Hdiff.
-    assert (Ht0 : nth p (g_taken gs) 0 <= i0) by (apply (gi_U gs Hgs); exact Hp).
-    assert (Htp : nth p (g_taken g) 0 <= D + i0) by lia.
+    assert (Htp : nth p (g_taken g) 0 - nth p (g_taken gs) 0 <= D) by lia.
     assert (Hpm : (p < length (g_items g))%nat) by (rewrite It; exact Hp).
-    pose proof (gi_L g I p Hpm) as HL. rewrite Mw in HL.
     pose proof mw_pos as Hmw.
-    assert (Hmul : nth p (g_taken g) 0 * mw <= (D + i0) * mw) by (apply Z.mul_le_mono_nonneg_r; lia).
-    assert (Hgi' : g_i g <= (D + i0) * mw + 1) by lia.
-    split; [exact Hgi'|].
-    assert (Hs : zsum (g_taken g) <= Z.of_nat (length (g_taken g)) * g_i g).
-    { apply zsum_bound. intros k Hk. apply (gi_U g I). rewrite <- (gi_lt g I). exact Hk. }
-    rewrite (gi_lt g I), It in Hs. fold m in Hs. unfold Cmax.
-    assert (Z.of_nat m * g_i g <= Z.of_nat m * ((D + i0) * mw + 1)) by (apply Z.mul_le_mono_nonneg_l; lia).
-    lia.
+    (* rounds passed since the loop began *)
+    pose proof (gi_Lx g I p Hpm) as HLp. rewrite Mw, Hgw in HLp.
+    pose proof (gi_Ux gs Hgs p Hp) as HUp. fold mw i0 in HUp.
+    pose proof (gi_w gs Hgs p Hp) as Hwp. fold mw in Hwp.
+    set (wp := nth p (g_weights gs) 0) in *.
+    set (tp := nth p (g_taken g) 0) in *. set (tp0 := nth p (g_taken gs) 0) in *.
+    assert (E1 : (g_i g - i0 - 1) * wp < (tp - tp0 + 1) * mw) by nia.
+    assert (E1' : (tp - tp0 + 1) * mw <= (D + 1) * mw) by (apply Z.mul_le_mono_nonneg_r; lia).
+    assert (E2 : g_i g - i0 - 1 < (D + 1) * mw).
+    { destruct (Z_lt_le_dec (g_i g - i0 - 1) 0) as [Hn|Hn]; [nia|].
+      assert ((g_i g - i0 - 1) * 1 <= (g_i g - i0 - 1) * wp) by (apply Z.mul_le_mono_nonneg_l; lia). lia. }
+    unfold Cmax.
+    assert (Hlen : length (g_taken g) = m) by (rewrite (gi_lt g I), It; reflexivity).
+    rewrite <- Hlen at 1.
+    apply zsum_affine_bound.
+    - rewrite (gi_lt gs Hgs), Hlen. reflexivity.
+    - rewrite (gi_lw gs Hgs), Hlen. reflexivity.
+    - intros j Hj. rewrite Hlen in Hj.
+      assert (Hjm : (j < length (g_items g))%nat) by (rewrite It; exact Hj).
+      pose proof (gi_Ux g I j Hjm) as HUj. rewrite Mw, Hgw in HUj.
+      pose proof (gi_Lx gs Hgs j Hj) as HLj. fold mw i0 in HLj.
+      pose proof (gi_w gs Hgs j Hj) as Hwj. fold mw in Hwj.
+      set (wj := nth j (g_weights gs) 0) in *.
+      set (tj := nth j (g_taken g) 0) in *. set (tj0 := nth j (g_taken gs) 0) in *.
+      assert (E3 : (tj - tj0 - 1) * mw < (g_i g - i0 + 1) * wj) by nia.
+      assert (E4 : (g_i g - i0 + 1) * wj <= ((D + 1) * mw + 1) * wj) by (apply Z.mul_le_mono_nonneg_r; lia).
+      assert (E5 : ((D + 1) * mw + 1) * wj <= ((D + 1) * wj + 1) * mw) by nia.
+      assert (E6 : tj - tj0 - 1 < (D + 1) * wj + 1) by (apply Z.mul_lt_mono_pos_r with (p := mw); lia).
+      lia.
   Qed.
 
   Lemma R_step : forall sizes cur g cur' g',
@@ -169,9 +221,8 @@ Section Loop.
     R (step_sizes sizes cur) cur' g' /\ zsum (g_taken g') = zsum (g_taken g) + 1.
   Proof.
     intros sizes cur g cur' g' HR Hrun Hrel.
-    destruct (running_bound _ _ _ HR Hrun) as (Hgi & _).
     pose proof (R0_step _ _ _ _ _ (r_0 _ _ _ HR) Hrel) as HR0'.
-    destruct HR as [[I It Mw (q & Hq & Hqm & Hc) Hl Lo Hi] HJ _].
+    destruct HR as [[I It Mw (q & Hq & Hqm & Hc) Hl Lo Hi] HJ Hgw].
     destruct Hrel as (I' & E1 & E2 & E3 & E4 & q' & Q1 & Q2 & Q3 & Q4).
     assert (Hq'len : (q' < length (g_taken g))%nat) by (rewrite (gi_lt g I); exact Q1).
     split; [|rewrite Q4; apply zsum_inc_nth; exact Hq'len].
@@ -194,7 +245,7 @@ Section Loop.
           rewrite nth_inc_nth_eq by exact Hcl. lia.
         * apply Z.ltb_ge in El. lia.
       + lia.
-    - unfold Imax. pose proof i0_nonneg. lia.
+    - congruence.
   Qed.
 
   Lemma grow_total_aux : forall fuel sizes cur g,
@@ -203,7 +254,7 @@ Section Loop.
   Proof.
     induction fuel as [|f IH]; intros sizes cur g HR Hfuel.
     - cbn [grow]. destruct (zsum sizes <? stop) eqn:E.
-      + apply Z.ltb_lt in E. destruct (running_bound _ _ _ HR E) as (_ & Hb). simpl in Hfuel. lia.
+      + apply Z.ltb_lt in E. pose proof (running_bound _ _ _ HR E) as Hb. simpl in Hfuel. lia.
       + eauto.
     - cbn [grow]. destruct (zsum sizes <? stop) eqn:E; [|eauto].
       apply Z.ltb_lt in E.
@@ -213,17 +264,16 @@ Section Loop.
   Qed.
 
   Lemma grow_total : forall fuel cur,
-    R0 start cur gs -> Z.of_nat fuel > Cmax ->
-    exists s' i' g', grow next fuel stop caps start cur gs = Some (s', i', g') /\ R0 s' i' g' /\ g_i g' <= Imax.
+    R0 start cur gs -> Z.of_nat fuel > (D + 1) * zsum (g_weights gs) + Z.of_nat m ->
+    exists s' i' g', grow next fuel stop caps start cur gs = Some (s', i', g') /\ R0 s' i' g' /\ g_weights g' = g_weights gs.
   Proof.
     intros fuel cur HR0 Hfuel.
     assert (HR : R start cur gs).
     { constructor; [exact HR0| |].
       - intros p q _ Hp. pose proof (ind_bounds p q). lia.
-      - unfold Imax. pose proof i0_nonneg. pose proof mw_pos. fold i0. nia. }
-    assert (0 <= zsum (g_taken gs)) by (apply zsum_nonneg; apply (gi_t0 gs Hgs)).
-    destruct (grow_total_aux fuel start cur gs HR ltac:(lia)) as (s' & i' & g' & Hg & HR').
-    exists s', i', g'. split; [exact Hg|]. split; [apply (r_0 _ _ _ HR')|apply (r_i _ _ _ HR')].
+      - reflexivity. }
+    destruct (grow_total_aux fuel start cur gs HR ltac:(unfold Cmax; lia)) as (s' & i' & g' & Hg & HR').
+    exists s', i', g'. split; [exact Hg|]. split; [apply (r_0 _ _ _ HR')|apply (r_w _ _ _ HR')].
   Qed.
 End Loop.
 
@@ -274,11 +324,11 @@ Definition in_domain (done : bool) (ds : list dim) (avail : Z) : Prop :=
 
 Definition Wmax (ds : list dim) : Z := fold_left Z.max (weights ds) 1.
 
-(* iterations of one loop that always suffice on the terminating inputs (not tight) *)
+(* iterations of one loop that always suffice: (max(0, avail) + 1) * (sum of weights) + n + 1;
+   a loop cannot finish in fewer than (stop - sum of the sizes it starts from) iterations
+   (grow_needs_fuel); Props/C12.v has an instance that needs about avail * (sum of weights) *)
 Definition divide_fuel (ds : list dim) (avail : Z) : nat :=
-  let D := Z.max 0 avail in
-  let W := Wmax ds in
-  S (Z.to_nat (Z.of_nat (length ds) * ((D + ((D + 1) * W + 3)) * W + 1))).
+  S (Z.to_nat ((Z.max 0 avail + 1) * zsum (weights ds) + Z.of_nat (length ds))).
 
 Section Whole.
   Variable ds : list dim.
@@ -323,15 +373,19 @@ Section Whole.
     destruct (Nat.lt_ge_cases c (length ws)); [assumption|]. rewrite nth_overflow in Hc; lia.
   Qed.
 
-  Lemma g1_facts : ginv g1 /\ 0 <= g_i g1 <= 1 /\ (length (g_items g1) <= n)%nat /\ 1 <= g_maxw g1 <= Wmax ds.
+  Lemma g1_facts : ginv g1 /\ (length (g_items g1) <= n)%nat /\
+                   0 <= zsum (g_weights g1) <= zsum (weights ds).
   Proof.
     destruct (gen_init_spec ws g0 Hinit) as (I0 & Hi0 & HI1 & _).
     pose proof (gen_init_items_length ws g0 Hinit) as Hlen. rewrite len_ws in Hlen.
     destruct Hrel as (I1 & E1 & E2 & E3 & E4 & _).
-    split; [exact I1|]. split; [pose proof (gi_i g1 I1); lia|]. split; [rewrite E1; exact Hlen|].
-    split; [pose proof (gi_maxw g1 I1); lia|].
-    rewrite E3. destruct (gi_top g0 I0) as (k & Hk & Hkw). rewrite <- Hkw.
-    destruct (HI1 k Hk) as (A & _ & B). rewrite B. unfold Wmax. fold ws. apply fold_max_nth. exact A.
+    split; [exact I1|]. split; [rewrite E1; exact Hlen|].
+    rewrite E2. split.
+    - apply zsum_nonneg. intro k. destruct (Nat.lt_ge_cases k (length (g_items g0))) as [Hk|Hk].
+      + pose proof (gi_w g0 I0 k Hk). lia.
+      + rewrite nth_overflow; [lia|]. rewrite (gi_lw g0 I0). exact Hk.
+    - apply gen_init_weights_sum; [|exact Hinit]. unfold ws, weights.
+      clear -Hv. induction Hv; simpl; constructor; auto. destruct H as (_ & _ & _ & ?). assumption.
   Qed.
 
   Lemma H5_1 : forall p, (p < length (g_items g1))%nat ->
@@ -448,35 +502,28 @@ Proof.
   destruct (gen_init_spec _ _ Hinit) as (I0 & _).
   destruct (next_total g0 I0) as (i & g1 & Hn & Hrel).
   rewrite (divide_unfold fuel done ds avail g0 i g1 Hv Hne Hfit Hinit Hn).
-  destruct (g1_facts ds g0 g1 i Hinit Hrel) as (I1 & Hi1 & Hm & Hmw).
+  destruct (g1_facts ds Hv g0 g1 i Hinit Hrel) as (I1 & Hm & Hw0 & Hw1).
   destruct (valid_sums ds Hv) as (S0 & S1 & S2). fold (mins ds) in *. fold (prefs ds) in *. fold (maxs ds) in *.
   set (D := Z.max 0 avail).
-  set (W := Wmax ds) in *.
-  set (X := Z.of_nat (length ds) * ((D + ((D + 1) * W + 3)) * W + 1)).
-  assert (HX : Z.of_nat fuel > X).
-  { unfold divide_fuel in Hfuel. fold D W X in Hfuel.
-    assert (0 <= X) by (unfold X; apply Z.mul_nonneg_nonneg; [lia|]; assert (0 <= (D + ((D + 1) * W + 3)) * W) by (apply Z.mul_nonneg_nonneg; nia); lia).
+  assert (HX : Z.of_nat fuel > (D + 1) * zsum (g_weights g1) + Z.of_nat (length (g_items g1))).
+  { unfold divide_fuel in Hfuel. fold D in Hfuel.
+    set (X := (D + 1) * zsum (weights ds) + Z.of_nat (length ds)) in *.
+    assert ((D + 1) * zsum (g_weights g1) <= (D + 1) * zsum (weights ds)) by (apply Z.mul_le_mono_nonneg_l; lia).
+    assert (0 <= X) by (unfold X; assert (0 <= (D + 1) * zsum (weights ds)) by (apply Z.mul_nonneg_nonneg; lia); lia).
     assert (Z.of_nat (S (Z.to_nat X)) <= Z.of_nat fuel) by (apply inj_le; exact Hfuel).
-    rewrite Nat2Z.inj_succ, Z2Nat.id in H0 by assumption. lia. }
+    rewrite Nat2Z.inj_succ, Z2Nat.id in H1 by assumption. unfold X in *. lia. }
   assert (Hlen1 : length (prefs ds) = length (mins ds)) by (unfold prefs, mins; rewrite !map_length; reflexivity).
-  assert (HC1 : Z.of_nat fuel > Cmax D g1).
-  { unfold Cmax. assert (Z.of_nat (length (g_items g1)) * ((D + g_i g1) * g_maxw g1 + 1) <= X); [|lia].
-    unfold X. apply fuel_arith; try lia. nia. }
   destruct (grow_total (prefs ds) (mins ds) (tgts (weights ds) (prefs ds) (mins ds))
               (Z.min avail (zsum (prefs ds))) D g1 I1 Hlen1
               (H3_1 ds g0 g1 i Hinit Hrel) (H5_1 ds g0 g1 i Hinit Hrel) Hdp ltac:(lia) ltac:(lia)
-              fuel i (R0_1 ds Hv g0 g1 i Hrel) HC1) as (s1 & i1 & g2 & Hg1 & Hend1 & Hi2).
+              fuel i (R0_1 ds Hv g0 g1 i Hrel) HX) as (s1 & i1 & g2 & Hg1 & Hend1 & Hw2).
   rewrite Hg1. destruct done; [discriminate|].
   destruct Hdm as [?|Hdm]; [discriminate|].
   pose proof (R0_2 ds Hv g1 s1 i1 g2 Hend1) as HR2.
   pose proof (r_inv _ _ _ _ _ _ Hend1) as I2.
   pose proof (le_all_sum _ _ (r_lo _ _ _ _ _ _ Hend1)) as Hs1.
-  assert (HI : g_i g2 <= (D + 1) * W + 3).
-  { unfold Imax in Hi2. assert ((D + g_i g1) * g_maxw g1 <= (D + 1) * W) by (apply Z.mul_le_mono_nonneg; lia). lia. }
-  assert (HC2 : Z.of_nat fuel > Cmax D g2).
-  { unfold Cmax. rewrite (r_items _ _ _ _ _ _ Hend1), (r_maxw _ _ _ _ _ _ Hend1).
-    assert (Z.of_nat (length (g_items g1)) * ((D + g_i g2) * g_maxw g1 + 1) <= X); [|lia].
-    unfold X. apply fuel_arith; try lia. pose proof (gi_i g2 I2). lia. }
+  assert (HC2 : Z.of_nat fuel > (D + 1) * zsum (g_weights g2) + Z.of_nat (length (g_items g2))).
+  { rewrite Hw2, (r_items _ _ _ _ _ _ Hend1). exact HX. }
   destruct (grow_total (maxs ds) s1 (tgts (weights ds) (maxs ds) (mins ds))
               (Z.min avail (zsum (maxs ds))) D g2 I2 (len_s1 ds g1 s1 i1 g2 Hend1)
               (H3_2 ds g0 g1 i Hinit Hrel s1 i1 g2 Hend1) (H5_2' ds g0 g1 i Hinit Hrel s1 i1 g2 Hend1)
@@ -500,7 +547,7 @@ Proof.
   destruct (gen_init_spec _ _ Hinit) as (I0 & _).
   destruct (next_total g0 I0) as (i & g1 & Hn & Hrel).
   rewrite (divide_unfold fuel done ds avail g0 i g1 Hv Hne Hfit Hinit Hn).
-  destruct (g1_facts ds g0 g1 i Hinit Hrel) as (I1 & _).
+  destruct (g1_facts ds Hv g0 g1 i Hinit Hrel) as (I1 & _).
   assert (Hlen1 : length (prefs ds) = length (mins ds)) by (unfold prefs, mins; rewrite !map_length; reflexivity).
   destruct (Z_le_gt_dec (Z.min avail (zsum (prefs ds))) (reach_pref ds)) as [Hdp|Hndp].
   - destruct (grow next fuel (Z.min avail (zsum (prefs ds))) (prefs ds) (mins ds) i g1)
